@@ -107,6 +107,21 @@ func (a *Aggregator) aggregate(ctx context.Context, pubkey core.PubKey, parSigs 
 		return nil, errors.New("require threshold signatures")
 	}
 
+	// All partial signatures must be over the same message.
+	firstRoot, err := parSigs[0].MessageRoot()
+	if err != nil {
+		return nil, errors.Wrap(err, "message root")
+	}
+
+	for _, parSig := range parSigs[1:] {
+		root, err := parSig.MessageRoot()
+		if err != nil {
+			return nil, errors.Wrap(err, "message root")
+		} else if root != firstRoot {
+			return nil, errors.New("mismatching partial signed data message roots", z.Int("share_idx", parSig.ShareIdx))
+		}
+	}
+
 	// Get all partial signatures.
 	blsSigs := make(map[int]tbls.Signature)
 
